@@ -113,6 +113,25 @@ def gen_call(rng, labs):
     return {"rel": rel, "P": G.jraw(P), "lam": [lam.numerator, lam.denominator], "log": log, "bounds": jb}
 
 
+def huge_call(rng, labs, cheap=False):
+    """a log-encoded slack over a range of 2**k (+- a few units), k = 49..53: the number of slack bits has to be right where
+    double-precision logarithms no longer tell 2**k from 2**k + 1.  Integer coefficients, weights and bounds only, so that the
+    library's arithmetic stays exact; far too many ancillas to enumerate: the result is compared with the model term by term"""
+    k = 49 if cheap else rng.randint(49, 53)
+    big = 2 ** k + (rng.choice([0, 0, 1, 3]) if cheap else rng.choice([-1, 0, 0, 0, 1, 3]))
+    a, b = rng.sample(labs, 2)
+    P = rng.choice([[((a,), F(1)), ((b,), F(-big))], [((a,), F(big)), ((b,), F(1)), ((), F(-big))],
+                    [((a, b), F(-big)), ((), F(rng.choice([0, 1])))]])
+    lo, hi = extrema(P)
+    mode = rng.choice(["none", "none", "exact", "loose", "left", "right"])
+    b = {"none": None, "exact": [lo, hi], "loose": [lo - rng.randint(0, 2), hi + rng.randint(0, 2)],
+         "left": [lo - rng.randint(0, 1), None], "right": [None, hi + rng.randint(0, 1)]}[mode]
+    lam = F(rng.choice([1, 1, 2, 3]))
+    jb = None if b is None else [None if x is None else [F(x).numerator, F(x).denominator] for x in b]
+    rel = "le" if cheap else rng.choice(["le", "le", "ge", "lt", "gt", "ne"])
+    return {"rel": rel, "P": G.jraw(P), "lam": [lam.numerator, lam.denominator], "log": True, "bounds": jb}
+
+
 def later_unary_form(rng, labs, spin=False):
     """sum of positive multiples of variables <= k with unary slack (log_trick=False): the shortcut that creates its own
     ancillas -- as a later call of a sequence it must continue the numbering of the earlier constraints"""
@@ -140,6 +159,12 @@ def gen(rng, i, tier):
         lam2 = rng.choice([F(1), F(2), F(1, 2)])
         again["lam"] = [lam2.numerator, lam2.denominator]
         calls.append(again)
+    # a fixed share: each costs the model a minute or more (some 1500 terms over unary-coded labels) -- one plain case in the
+    # quick tier, one in a hundred with all relations and an earlier constraint in the thorough tier
+    if tier == "quick" and i == 37:
+        obj, calls = [], [huge_call(rng, labs, cheap=True)]
+    elif tier != "quick" and i % 100 == 37:
+        calls = calls[:rng.randint(0, 1)] + [huge_call(rng, labs)]
     return {"obj": G.jraw(obj), "calls": calls, "touch": rng.choice([None, None, "refresh", "copy"])}
 
 
@@ -288,6 +313,8 @@ def tags(case, out):
         t.append("rel:%s:log=%s" % (c["rel"], c["log"]))
         t.append("warn:" + o["warn"])
         t.append("bounds:" + ("none" if c["bounds"] is None else "partial" if None in c["bounds"] else "given"))
+        if any(abs(F(*v)) >= 2 ** 40 for _, v in c["P"]):
+            t.append("slack-range>=2**49")
     if out["error"]:
         t.append("error:" + out["error"])
     return t
